@@ -96,6 +96,14 @@ class Controller:
 
     def _maybe_fault(self, k, mut, proxy, data):
         p = self.plan
+        if p is not None and p[0] == "errs":
+            # several injected errors: [[k, errno], ...] indexed by this run's own step counter
+            for kk, eno in p[1]:
+                if kk == k:
+                    self.fired = True
+                    self.nfired = getattr(self, "nfired", 0) + 1
+                    raise OSError(eno, os.strerror(eno) + " [injected]")
+            return
         if p is None or self.fired or p[1] != k:
             return
         self.fired = True
@@ -174,6 +182,7 @@ def run(setup, op, root, plan=None, include_reads=False, deterministic_uuid=True
                 ctl.armed = False
             result["steps"] = ctl.steps
             result["fired"] = ctl.fired
+            result["nfired"] = getattr(ctl, "nfired", 1 if ctl.fired else 0)
             result["policy_hits"] = sess.policy_hits
             os.write(wfd, json.dumps(result).encode())
         except BaseException:  # harness failure inside the child
